@@ -131,6 +131,47 @@ def rational_case(rng: random.Random):
     return case
 
 
+def nested_reps_case(rng: random.Random):
+    for _ in range(20):
+        try:
+            return _nested_reps_case(rng)
+        except Exception:   # noqa -- an ill-formed draw
+            continue
+    raise core.MachineryError('could not draw a nested-repetitions case')
+
+
+def _nested_reps_case(rng: random.Random):
+    """three and more directly nested repetitions (counts 1..4, literal or by parameter) over a mostly non-constant body,
+    optionally separated by levels that run once (time reversal, a mapping, a one-element sequence, count 1): template
+    duration = Loop.duration = to_waveform(program).duration = sum of the played pieces"""
+    g = ptgen.Gen(rng, 2, measure_p=0.0)
+    env, values = g.params()
+    values.update(k1=rng.choice([1, 2, 3]), k2=rng.choice([2, 3, 5]))
+    k = rng.random()
+    if k < 0.35:
+        body = {'k': 'func', 'ch': 'A', 'dur': g.p2time(env)[0], 'expr': rng.choice(['t', '1 + t/2', 'v0*t']), 'meas': [], 'cons': []}
+    elif k < 0.7:
+        body = {'k': 'table', 'entries': [['A', [['0', '0', 'hold'], [g.p2time(env)[0], 'v1', 'linear']]]], 'meas': [], 'cons': []}
+    elif k < 0.85:
+        body = {'k': 'seq', 'subs': [ptgen.strip(g.atom(['A'], env)), ptgen.strip(g.atom(['A'], env))], 'meas': [], 'cons': []}
+    else:
+        body = ptgen.strip(g.atom(['A'], env))
+    spec = body
+    for level in range(rng.choice([3, 3, 3, 4, 5])):
+        spec = {'k': 'rep', 'body': spec, 'count': rng.choice(['2', '2', '3', '4', 'k1', 'k2', 'k1 + 1', '1']), 'meas': [], 'cons': []}
+        between = rng.random()
+        if between < 0.12:
+            spec = {'k': 'rev', 'body': spec}
+        elif between < 0.2:
+            spec = {'k': 'map', 'body': spec, 'pm': None, 'mm': None, 'cm': None}
+        elif between < 0.27:
+            spec = {'k': 'seq', 'subs': [spec], 'meas': [], 'cons': []}
+    pt = ptgen.build(spec)
+    case = {'spec': spec, 'params': {k: v for k, v in values.items() if k in pt.parameter_names}, 'cm': {}, 'mm': None,
+            'single': []}
+    return case
+
+
 def run(ctx: core.Ctx):
     ctx.rule = ('three number streams over the C01 template generator: (1) integers and dyadics - all four quantities and '
                 'the template duration must be equal rationals; (2) short decimals given directly as durations '
@@ -142,7 +183,7 @@ def run(ctx: core.Ctx):
                 'these cases with short non-dyadic decimal parameters handed over as python float / numpy.float64 / TimeType '
                 '(integers as int / numpy.int64): the exact durations do not depend on the type that carries a value, a '
                 'float of either kind means its shortest decimal representation; typed parameter values in 40% of streams '
-                '(1) and (2) as well. Plus all nestings of depth <= 3 over two atoms and a malformed stream. Non-trivial = a '
+                '(1) and (2) as well. (5) three to five directly nested repetitions over non-constant bodies, optionally separated by levels that run once. Plus all nestings of depth <= 3 over two atoms and a malformed stream. Non-trivial = a '
                 'program is produced from a tree with more than one node')
     ctx.assumptions = [
         'TimeType.from_float turns a float into the rational of its shortest decimal representation (C14)',
@@ -159,6 +200,9 @@ def run(ctx: core.Ctx):
     base = ctx.fork('dyadic').getrandbits(48)
     descs += [ck.desc(family='random', seed=base + i, depth=depth, label='dyadic', gen=dict(GEN, measure_p=0.1))
               for i in range(ctx.n(900, 20000))]
+    base = ctx.fork('nested-reps').getrandbits(48)
+    descs += [ck.desc(family='custom', make=nested_reps_case, seed=base + i, label='nested-repetitions')
+              for i in range(ctx.n(120, 2500))]
     base = ctx.fork('malformed').getrandbits(48)
     descs += [ck.desc(family='malformed', seed=base + i) for i in range(ctx.n(100, 2000))]
     ck.run_batch(descs)
